@@ -480,4 +480,61 @@ Section T2.
                           st1 st2 (i + 1)) as [s' Hs']; [exact Hg|exact HA|exact HB|lia|intros G; apply F1; lia|intros G; lia|lia|].
              exists s'. exact Hs'.
   Qed.
+
+  Let sfuel := (Z.to_nat (4 * (nx + ny)) + 2 * Z.to_nat (nx + ny) + 8)%nat.
+
+  Lemma sfuel_enough : (Z.to_nat (2 * K + 4 - 0) < sfuel)%nat.
+  Proof. unfold K, sfuel. lia. Qed.
+
+  (* the outer loop: the frontiers approach each other *)
+  Definition outer_inv (s : dstate) : Prop :=
+    geo s /\ 0 <= ffx s /\ 0 <= ffy s /\ rfx s <= nx /\ rfy s <= ny.
+
+  Lemma outer_total : forall fuel s, outer_inv s ->
+    (Z.to_nat (Z.max 0 ((rfx s + rfy s) - (ffx s + ffy s))) < fuel)%nat ->
+    exists s', outer f fuel sfuel cfuel s = Some s' /\ geo s'.
+  Proof.
+    induction fuel as [|k IH]; intros s [Hg [A0 [B0 [C1 D1]]]] Hf; [lia|]. cbn [outer].
+    destruct (done s) eqn:Dn; [exists s; split; [reflexivity|exact Hg]|].
+    unfold done in Dn. apply orb_false_iff in Dn as [Dn Db]. apply orb_false_iff in Dn as [Dx Dy].
+    apply Z.leb_gt in Dx, Dy.
+    destruct (search_fwd_spec sfuel s false false 0 Hg ltac:(lia) ltac:(lia) ltac:(lia)) as [s1 [E1 [G1 [R1 [Rx1 [Ry1 [FA1 [FB1 FS1]]]]]]]];
+      [intros G; unfold K in G; lia|intros G; unfold K in G; lia|exact sfuel_enough|].
+    rewrite E1. cbv zeta.
+    match goal with |- context [if done ?t then _ else _] => set (s2 := t) end.
+    assert (geo s2 /\ fwd s2 = fwd s1 /\ rev s2 = rev s1 /\ rfx s2 = rfx s /\ rfy s2 = rfy s /\ 0 <= ffx s2 /\ 0 <= ffy s2
+            /\ ffx s + ffy s + 1 <= ffx s2 + ffy s2) as [G2 [F2 [R2 [Rx2 [Ry2 [A2 [B2 S2]]]]]]].
+    { pose proof G1 as [g1 [g2 [g3 [g4 [g5 [g6 [g7 g8]]]]]]].
+      unfold s2. destruct (_ <=? _); unfold geo; cbn [fwd rev ffx ffy rfx rfy]; repeat split; try assumption; try lia. }
+    clearbody s2.
+    destruct (done s2) eqn:Dn2; [exists s2; split; [reflexivity|exact G2]|].
+    unfold done in Dn2. apply orb_false_iff in Dn2 as [Dn2 Db2]. apply orb_false_iff in Dn2 as [Dx2 Dy2].
+    apply Z.leb_gt in Dx2, Dy2.
+    destruct (search_rev_spec sfuel s2 false false 0 G2 ltac:(lia) ltac:(lia) ltac:(lia)) as [s3 [E3 [G3 [F3 [Fx3 [Fy3 [RA3 [RB3 RS3]]]]]]]];
+      [intros G; unfold K in G; lia|intros G; unfold K in G; lia|exact sfuel_enough|].
+    rewrite E3.
+    match goal with |- context [outer f k sfuel cfuel ?t] => set (s4 := t) end.
+    assert (outer_inv s4 /\ (rfx s4 + rfy s4) - (ffx s4 + ffy s4) <= (rfx s + rfy s) - (ffx s + ffy s) - 2) as [I4 M4].
+    { pose proof G3 as [g1 [g2 [g3 [g4 [g5 [g6 [g7 g8]]]]]]].
+      unfold s4, outer_inv. destruct (_ <=? _); unfold geo; cbn [fwd rev ffx ffy rfx rfy]; repeat split; try assumption; try lia. }
+    clearbody s4. apply IH; [exact I4|lia].
+  Qed.
+
+  Theorem difference_total_aux : exists es, difference f nx ny = Some es.
+  Proof.
+    unfold difference. cbv zeta.
+    match goal with |- context [outer f ?a ?b ?c ?s0] =>
+      destruct (outer_total a s0) as [s [E [Df [Dr [X0 [X1 [X2 [Y0 [Y1 Y2]]]]]]]]] end.
+    - repeat split; cbn; lia.
+    - cbn. lia.
+    - fold sfuel in E. fold cfuel in E. fold sfuel. fold cfuel. rewrite E.
+      destruct (connect f cfuel (fwd s) (p_x (rev s)) (p_y (rev s))) as [fp|] eqn:Ec; [eauto|].
+      exfalso. unfold connect in Ec. rewrite Df in Ec. change (0 <? 1) with true in Ec. cbv iota in Ec.
+      revert Ec. apply connect_fwd_total; try assumption; try (unfold cfuel; lia).
+  Qed.
 End T2.
+
+(* internal/diff.Difference terminates on every input (whatever the comparison function
+   answers) and returns a path from (0, 0) to (nx, ny) *)
+Theorem difference_total f nx ny : 0 <= nx -> 0 <= ny -> exists es, difference f nx ny = Some es.
+Proof. intros Hx Hy. exact (difference_total_aux f nx ny Hx Hy). Qed.
